@@ -34,9 +34,10 @@ CHECKS = {
  'C03': dict(seed_offset=3, level='exploration', rule=RULE_A + FOREST_RULE, props=['C03', 'C02'], also=['C05:fatal_signal*', 'C05:sanitizer*'],
              batches=[dict(profile='pipe', flavour='plain', quick=60000, thorough=3000000), dict(profile='strf', flavour='plain', quick=20000, thorough=1000000), FOREST_BATCH],
              must_probe=['pipeline_waits', 'busy_chain_ge3_panels', 'supernode_spans_two_panels', 'canpipe_panel_taken', 'row_interchanges', 'update_extents_checked', 'forest_etree_as_intended', 'forest_shapes_distinct']),
- 'C04': dict(seed_offset=4, level='exploration', rule=RULE_A + FOREST_RULE, props=['C04'], also=['C05:fatal_signal*', 'C05:sanitizer*'],
-             batches=[dict(profile='term', flavour='plain', quick=60000, thorough=3000000), dict(profile='pipe', flavour='plain', quick=20000, thorough=1000000), FOREST_BATCH],
-             must_probe=['nprocs_gt_n', 'idle_polls', 'forest_etree_as_intended', 'forest_shapes_distinct']),
+ 'C04': dict(seed_offset=4, level='exploration', rule=RULE_A + FOREST_RULE + '; the `alloc` batch is C14\'s enumeration of failed allocator requests and caller-workspace sizes: after every such fault the routine must still return or end through the abort path with no thread left', props=['C04'], also=['C05:fatal_signal*', 'C05:sanitizer*'],
+             batches=[dict(profile='term', flavour='plain', quick=60000, thorough=3000000), dict(profile='pipe', flavour='plain', quick=20000, thorough=1000000), FOREST_BATCH,
+                      dict(profile='alloc', flavour='plain', quick=128 * 24, thorough=1024 * 100, S=128, S_thorough=1024)],
+             must_probe=['nprocs_gt_n', 'idle_polls', 'forest_etree_as_intended', 'forest_shapes_distinct', 'abort_under_fault', 'returned_info_gt_n']),
  'C05': dict(seed_offset=5, level='exploration', rule=RULE_A + TINY_RULE, props=['C05'],
              batches=[dict(profile='mem', flavour='asan', quick=8000, thorough=300000), dict(profile='mem', flavour='plain', quick=40000, thorough=2000000),
                       dict(profile='sym', flavour='plain', quick=16000, thorough=800000), dict(profile='sym', flavour='asan', quick=2000, thorough=80000),
